@@ -8,8 +8,8 @@ PROPS = {
     "C05": dict(tier_a=["contracts.parser_cursor", "contracts.errors_funnel", "contracts.tokenizer"], projection=True, tier_b="bounded.c05"),
     "C06": dict(tier_a=["contracts.simplify_tables"], tier_b="bounded.c06"),
     "C07": dict(tier_a=["contracts.generator_fmt"], regtrans=True, scans=["c07"], tier_b="bounded.c07"),
-    "C08": dict(tier_a=["contracts.core_tree"], tier_b="bounded.c08"),
-    "C09": dict(tier_a=["contracts.copy_frames"], scans=["c09"], tier_b="bounded.c09"),
+    "C08": dict(tier_a=["contracts.core_tree", "contracts.journal"], tier_b="bounded.c08"),
+    "C09": dict(tier_a=["contracts.copy_frames", "contracts.journal"], scans=["c09"], tier_b="bounded.c09"),
     "C10": dict(tier_a=["contracts.identifiers", "contracts.scope_branch"], tier_b="bounded.c10"),
     "C11": dict(tier_a=["contracts.env_kernels", "contracts.executor_kernels"], tier_b="bounded.c11"),
     "C12": dict(tier_a=["contracts.serde_load"], tier_b="bounded.c12"),
